@@ -110,6 +110,37 @@ class Arr:
             yield idx, self.offset + sum(i * s for i, s in zip(idx, self.strides))
 
 
+class MSet:
+    """a set of small ints (0..n-1) with symbolic membership: one z3 Bool per candidate; add/remove under a guard"""
+    def __init__(self, bools):
+        self.m = list(bools)
+
+    def _sel(self, x, f):
+        if not is_sym(x):
+            return f(int(x))
+        return None
+
+    def contains(self, x):
+        if not is_sym(x):
+            return self.m[int(x)] if 0 <= int(x) < len(self.m) else False
+        return z3.Or(*[z3.And(x == i, to_z3(self.m[i])) for i in range(len(self.m))])
+
+    def _set(self, x, val, guard):
+        for i in range(len(self.m)):
+            hit = b_and(guard, (x == i) if is_sym(x) else (int(x) == i))
+            if hit is False:
+                continue
+            self.m[i] = val if hit is True else z3.If(hit, z3.BoolVal(val), to_z3(self.m[i]))
+
+    def add(self, x, guard=True):
+        self._set(x, True, guard)
+
+    def remove(self, x, guard=True):
+        self._set(x, False, guard)
+
+    discard = remove
+
+
 class Ctx:
     def __init__(self, unwind=16):
         self.heap = Heap()
@@ -696,6 +727,9 @@ class Interp:
         if isinstance(a, Arr) or isinstance(b, Arr):
             return self.arr_map(lambda x, y: self.cmp(op, x, y), a, b)
         if isinstance(op, (ast.In, ast.NotIn)):
+            if isinstance(b, MSet):
+                r = b.contains(a)
+                return r if isinstance(op, ast.In) else b_not(r)
             r = a in b
             return r if isinstance(op, ast.In) else not r
         if isinstance(op, (ast.Is, ast.IsNot)):
@@ -733,6 +767,8 @@ class Interp:
     def call(self, f, args, kwargs, guard):
         if isinstance(f, tuple) and f and f[0] == "arrmethod":
             return self.models["arr." + f[2]](self, f[1], *args, **kwargs)
+        if isinstance(getattr(f, "__self__", None), MSet):
+            return f(*args, guard=guard)
         key = f
         try:
             if key in self.models:
